@@ -75,7 +75,7 @@ class KernelProp(Prop):
         if len(mo) != len(impl):
             return f"model answered {len(mo)} steps, implementation {len(impl)}"
         for i, (m, r) in enumerate(zip(mo, impl)):
-            if [canon_all(x) for x in m["res"]] != sorted_tasks(r["res"]) or m["ev"] != r["ev"]:
+            if [canon_all(x) for x in m["res"]] != sorted_tasks(r["res"]) or [canon_ev(e) for e in m["ev"]] != r["ev"]:
                 return (f"step {i} {case['ops'][i]}: model {m} vs implementation {r}")
         return None
 
@@ -169,6 +169,9 @@ def _shrink_cb(cb: dict[str, Any]) -> Iterator[dict[str, Any]]:
 
 def op_kinds(case: dict[str, Any]) -> list[str]:
     return [o["op"] for o in case["ops"]]
+
+
+from .monitors_kernel import canon_ev  # noqa: E402
 
 
 def sorted_tasks(res: list[str]) -> list[str]:
